@@ -6,6 +6,7 @@ import (
 	"bytes"
 	"fmt"
 	"io"
+	"time"
 
 	"github.com/golang/groupcache/lru"
 
@@ -79,7 +80,17 @@ func suiteSeeker(e *vh.Env) {
 			d := rng.Bytes(dn)
 			src.next = d
 			p := make([]byte, pn)
-			c, _ := sk.Read(p)
+			// one Read of the seeker must return after at most one Read of its source (C05: it sits on the
+			// streaming path of every response); a source that has nothing more to give right now returns 0 bytes
+			cch := make(chan int, 1)
+			go func() { c, _ := sk.Read(p); cch <- c }()
+			var c int
+			select {
+			case c = <-cch:
+			case <-time.After(5 * time.Second):
+				e.Fail("C05:seeker-read-does-not-return", fmt.Sprintf("case %d: Read(%d bytes) on a seeker with buffer %d did not return within 5 s although its source had handed over everything it had (%d bytes); it keeps asking the source for more", i, pn, capn, dn), i, nil, nil, nil)
+				return
+			}
 			wh, rh := utils.VerifSeekerState(sk)
 			e.Op(fmt.Sprintf("read %d %s", pn, vh.Hex(d)), fmt.Sprintf("out %s wh=%d rh=%d", vh.Hex(p[:c]), wh, rh))
 			sent = append(sent, p[:c]...)
